@@ -8,6 +8,8 @@ Every theorem quantifies over ALL thread lists `threads : List (List Op)` (any n
 any parameters) and ALL schedules `sched : List ThreadId`.
 -/
 import FlexModel.Conc.RouterLemmas
+import FlexModel.Conc.RouterLocTLemmas
+import FlexModel.Conc.RouterReduction
 
 namespace Props.C15
 open FlexModel.Conc FlexModel.Conc.Router
@@ -15,11 +17,13 @@ open FlexModel.Conc FlexModel.Conc.Router
 /-- final shared state of the router under a schedule -/
 abbrev final (threads : List (List Op)) (sched : List ThreadId) : St := (run (sys threads) sched).sh
 
-theorem anyPurge (threads : List (List Op)) : ∀ ops ∈ threads, ∀ op ∈ ops, op.isPurge = true → true = true :=
+private theorem anyPurge (threads : List (List Op)) : ∀ ops ∈ threads, ∀ op ∈ ops, op.isPurge = true → true = true :=
   fun _ _ _ _ _ => rfl
-theorem anyOld (threads : List (List Op)) : ∀ ops ∈ threads, ∀ op ∈ ops, op.isOld = true → true = true :=
+private theorem anyOld (threads : List (List Op)) : ∀ ops ∈ threads, ∀ op ∈ ops, op.isOld = true → true = true :=
   fun _ _ _ _ _ => rfl
-theorem anyNew (threads : List (List Op)) : ∀ ops ∈ threads, ∀ op ∈ ops, op.isNew = true → true = true :=
+private theorem anyNew (threads : List (List Op)) : ∀ ops ∈ threads, ∀ op ∈ ops, op.isNew = true → true = true :=
+  fun _ _ _ _ _ => rfl
+private theorem anyUnl (threads : List (List Op)) : ∀ ops ∈ threads, ∀ op ∈ ops, op.isUnl = true → true = true :=
   fun _ _ _ _ _ => rfl
 
 /-! ## Linearisation (generic, `Conc/Sched`) -/
@@ -41,7 +45,7 @@ theorem linearisation_order (threads : List (List Op)) (sched : List ThreadId) (
 theorem sn_consecutive_run (threads : List (List Op)) (sched : List ThreadId) (i : Nat)
     (hi : i < (final threads sched).snLog.length) :
     (final threads sched).snLog[i]? = some (((final threads sched).snLog.length - i) % 65535) :=
-  (router_inv true true true SnInv threads (anyPurge threads) (anyOld threads) (anyNew threads) (by simp [SnInv, M]) (SnInv_blk true true true) sched).2 i hi
+  (router_inv true true true true SnInv threads (anyPurge threads) (anyOld threads) (anyNew threads) (anyUnl threads) (by simp [SnInv, M]) (SnInv_blk true true true true) sched).2 i hi
 
 /-- any two allocations fewer than 65535 allocations apart returned different sequence numbers -/
 theorem sn_distinct (threads : List (List Op)) (sched : List ThreadId) (i j : Nat) (hij : i < j)
@@ -69,7 +73,7 @@ example : (final [[.gbc 1, .gbc 2], [.gbc 3]] [0, 0, 0, 1, 1, 1, 0, 0, 0, 0, 0, 
 cancelled one never -/
 theorem cbf_at_most_once (threads : List (List Op)) (sched : List ThreadId) (k : Nat) :
     cbfPkts (final threads sched) k + (final threads sched).cbfCan k ≤ (final threads sched).cbfIns k := by
-  have h := router_inv true true true CbfInv threads (anyPurge threads) (anyOld threads) (anyNew threads) (by intro k; simp [cbfPkts]) (CbfInv_blk true true true) sched k
+  have h := router_inv true true true true CbfInv threads (anyPurge threads) (anyOld threads) (anyNew threads) (anyUnl threads) (by intro k; simp [cbfPkts]) (CbfInv_blk true true true true) sched k
   obtain ⟨h1, h2, h3⟩ := h
   simp only [final] at *
   split at h1 <;> omega
@@ -77,17 +81,30 @@ theorem cbf_at_most_once (threads : List (List Op)) (sched : List ThreadId) (k :
 /-- every transmission was committed by an expiry block that found the key in the buffer -/
 theorem cbf_sends_le_commits (threads : List (List Op)) (sched : List ThreadId) (k : Nat) :
     cbfPkts (final threads sched) k ≤ (final threads sched).cbfCom k := by
-  have h := router_inv true true true CbfInv threads (anyPurge threads) (anyOld threads) (anyNew threads) (by intro k; simp [cbfPkts]) (CbfInv_blk true true true) sched k
+  have h := router_inv true true true true CbfInv threads (anyPurge threads) (anyOld threads) (anyNew threads) (anyUnl threads) (by intro k; simp [cbfPkts]) (CbfInv_blk true true true true) sched k
   obtain ⟨_, h2, h3⟩ := h
   simp only [final] at *
   omega
 
-/-- the cancel block (duplicate arrival) leaves the key absent … -/
-theorem cbf_cancel_removes (o k : Nat) (x : St) (h : x.cbf k = true) : (cbfArrive o k x).cbf k = false := by
-  simp [cbfArrive, h]
+/-- **never after its cancellation has completed**, over schedules: at every instant of every run (every schedule is
+also every prefix of a longer one) each copy ever inserted for a key is in exactly ONE of four places – still buffered,
+removed by a cancellation (duplicate arrival / discard), committed by an expiry block and transmitted, committed and
+about to be transmitted by that timer thread.  A cancelled copy is therefore never among the transmitted ones, and an
+expiry that starts after the cancel block finds nothing to commit. -/
+theorem cbf_accounting (threads : List (List Op)) (sched : List ThreadId) (k : Nat) :
+    let s := final threads sched
+    s.cbfIns k = (if s.cbf k then 1 else 0) + s.cbfCan k + cbfPkts s k + s.cbfPend k := by
+  have h := router_inv true true true true CbfInv threads (anyPurge threads) (anyOld threads) (anyNew threads) (anyUnl threads) (by intro k; simp [cbfPkts]) (CbfInv_blk true true true true) sched k
+  obtain ⟨h1, h2, h3⟩ := h
+  simp only [final] at *
+  omega
 
-/-- … and an expiry block that starts while the key is absent commits nothing, so the send after it does nothing:
-no transmission after a completed cancellation -/
+/-- (block fact used in the explanation above, not a claim of its own) the cancel block leaves the key absent … -/
+theorem cbf_cancel_removes (o k : Nat) (x : St) (h : x.cbf k = true) : (cbfArrive o k x).cbf k = false := by
+  simp [cbfArrive, cbfDel, h]
+
+/-- (block fact) … and an expiry block that starts while the key is absent commits nothing, so the send after it is the
+identity -/
 theorem cbf_no_send_after_cancel (o k : Nat) (x : St) (h : x.cbf k = false) :
     (cbfExpire o k x).cbfCom = x.cbfCom ∧ (cbfExpire o k x).reg o 2 = 0 ∧
       cbfSend o k (cbfExpire o k x) = cbfExpire o k x := by
@@ -102,7 +119,7 @@ example : cbfPkts (final [[.cbfArrive 1 7], [.cbfFire 3 7 1]] [0, 0, 0, 0, 0, 0,
 /-- every emitted packet carries a PV that was the ego PV at some instant (installed by `egoSwap`, or the initial one) -/
 theorem pv_was_ego (threads : List (List Op)) (sched : List ThreadId) (p : Pkt)
     (hp : p ∈ (final threads sched).sent) : p.pv ∈ (final threads sched).egoHist :=
-  (router_inv true true true PvInv threads (anyPurge threads) (anyOld threads) (anyNew threads) (by simp [PvInv]) (PvInv_blk true true true) sched).2.2.2 p hp
+  (router_inv true true true true PvInv threads (anyPurge threads) (anyOld threads) (anyNew threads) (anyUnl threads) (by simp [PvInv]) (PvInv_blk true true true true) sched).2.2.2 p hp
 
 example : ((final [[.ego 5], [.shb 1]] [1, 0, 0, 1, 0]).sent.map (·.pv)) = [0] := by decide +kernel
 
@@ -121,7 +138,7 @@ theorem ls_conservation (threads : List (List Op)) (sched : List ThreadId) (d r 
     let s := final threads sched
     (s.lsQueued d).count r =
       (s.lsBuf d).count r + (s.lsFlight d).count r + (s.lsSent d).count r + (s.lsDropped d).count r + (s.lsLost d).count r :=
-  router_inv true true true LsInv threads (anyPurge threads) (anyOld threads) (anyNew threads) (by intro d r; simp) (LsInv_blk true true true) sched d r
+  router_inv true true true true LsInv threads (anyPurge threads) (anyOld threads) (anyNew threads) (anyUnl threads) (by intro d r; simp) (LsInv_blk true true true true) sched d r
 
 /-- **Exactly once** for the code as it is now, under ANY interleaving with LocT purges (received frames), replies and
 timer expiries: nothing is ever lost, hence each buffered request is sent exactly once after a reply block popped it,
@@ -135,7 +152,7 @@ theorem ls_exactly_once (threads : List (List Op)) (hfx : allFixed threads) (sch
     rw [hfx ops ho op hop] at h
     cases h
   have h1 := ls_conservation threads sched d r
-  have h2 := (router_inv true false true LsNoLossB threads (anyPurge threads) hq (anyNew threads) (by intro d; simp) (LsNoLossB_blk true) sched d).2.2.2
+  have h2 := (router_inv true false true true LsNoLossB threads (anyPurge threads) hq (anyNew threads) (anyUnl threads) (by intro d; simp) (LsNoLossB_blk true true) sched d).2.2.2
   simp only [final] at *
   rw [h2] at h1
   simpa using h1
@@ -147,6 +164,31 @@ theorem ls_never_both_never_twice (threads : List (List Op)) (hfx : allFixed thr
   have := ls_exactly_once threads hfx sched d r
   simp only at this
   omega
+
+/-- no request is stranded: a request is buffered only while a lookup for its destination is in progress (its
+retransmit counter exists), so a reply will flush it or the final retry will drop it – never "buffered behind a lookup
+that no longer exists" -/
+theorem ls_no_stranded_buffer (threads : List (List Op)) (hfx : allFixed threads) (sched : List ThreadId) (d : Nat)
+    (h : (final threads sched).lsBuf d ≠ []) : ((final threads sched).lsCnt d).isSome = true := by
+  have hq : ∀ ops ∈ threads, ∀ op ∈ ops, op.isOld = true → false = true := by
+    intro ops ho op hop h
+    rw [hfx ops ho op hop] at h
+    cases h
+  have h1 := (router_inv true false true true LsNoLossB threads (anyPurge threads) hq (anyNew threads) (anyUnl threads) (by intro d; simp) (LsNoLossB_blk true true) sched d).1
+  cases hc : (final threads sched).lsCnt d with
+  | none => exact absurd (h1 hc) h
+  | some c => rfl
+
+/-- "sent … after the reply": a buffered request is handed to the flush loop / counted as sent only after a reply block
+for its destination has run (both code variants) -/
+theorem ls_sent_after_reply (threads : List (List Op)) (sched : List ThreadId) (d : Nat)
+    (h : (final threads sched).lsFlight d ≠ [] ∨ (final threads sched).lsSent d ≠ []) :
+    0 < (final threads sched).lsPops d :=
+  router_inv true true true true LsAfter threads (anyPurge threads) (anyOld threads) (anyNew threads) (anyUnl threads)
+    (by intro d h; simp at h) (LsAfter_blk true true true true) sched d h
+
+example : ((final [[.guc 1 1 9 true], [.lsReply 2 9 1 true]] (List.replicate 40 0 ++ List.replicate 30 1)).lsPops 9) = 1 := by
+  decide +kernel
 
 /-- the code before the LS-order commit (known finding C15-KF1): exactly-once outside the known region, i.e. as long
 as no received frame purges a placeholder LocTE during the lookup … -/
@@ -164,7 +206,7 @@ theorem ls_exactly_once_partial (threads : List (List Op)) (hnp : noPurge thread
     rw [hold ops ho op hop] at h
     cases h
   have h1 := ls_conservation threads sched d r
-  have h2 := (router_inv false true false LsNoLossA threads hp (anyOld threads) hn (by intro d; simp) LsNoLossA_blk sched d).2
+  have h2 := (router_inv false true false true LsNoLossA threads hp (anyOld threads) hn (anyUnl threads) (by intro d; simp) (fun f hf => LsNoLossA_blk f true hf) sched d).2
   simp only [final] at *
   rw [h2] at h1
   simpa using h1
@@ -187,6 +229,128 @@ theorem ls_stale_timer_witness :
 example : ((final [[.guc 1 1 9 true], [.lsReply 2 9 1 true]] (List.replicate 40 0 ++ List.replicate 30 1)).lsSent 9) = [1] := by
   decide +kernel
 
+/-! ## Duplicate detection and the LocTE life cycle
+
+A received multi-hop packet is delivered / forwarded iff `check_duplicate_sn` of its source's LocTE accepts its sequence
+number.  `srcPass a` lists the sequence numbers accepted from source `a` since its entry was last purged (oldest first),
+`srcLives a` the lists closed by earlier purges; `ePass e` is the same per LocTE object. -/
+
+/-- every frame reception is handled by the code with repair C15-locte-update-under-lock (get-or-create and entry
+update in one `loc_t_lock` section) -/
+def allLocked (threads : List (List Op)) : Prop := ∀ ops ∈ threads, ∀ op ∈ ops, op.isUnl = false
+
+/-- the lives of the entry of source `a`: the acceptances since the last purge, and those closed by a purge -/
+def lives (s : St) (a : Nat) : List (List Nat) := s.srcPass a :: s.srcLives a
+
+theorem dpl_window : dplLen = Generated.Mib.itsGnDPLLength ∧ 0 < dplLen := ⟨rfl, dplLen_pos⟩
+
+/-- the duplicate-detection invariant of the code as it is now, after ANY schedule of ANY threads -/
+theorem dpl_invariant (threads : List (List Op)) (hfx : allFixed threads) (hlk : allLocked threads)
+    (sched : List ThreadId) : DplInv (final threads sched) := by
+  have hq : ∀ ops ∈ threads, ∀ op ∈ ops, op.isOld = true → false = true := by
+    intro ops ho op hop h
+    rw [hfx ops ho op hop] at h
+    cases h
+  have hu : ∀ ops ∈ threads, ∀ op ∈ ops, op.isUnl = true → false = true := by
+    intro ops ho op hop h
+    rw [hlk ops ho op hop] at h
+    cases h
+  exact router_inv true false true false DplInv threads (anyPurge threads) hq (anyNew threads) hu DplInv_init
+    (DplInv_blk true true) sched
+
+/-- **A data packet with a given source and sequence number passes duplicate detection at most once while the source's
+LocTE lives, within the DPL window** – under every interleaving of receptions (of any sources and sequence numbers,
+concurrent receptions of the same packet included), purges by refresh_table (with any set of expired entries),
+location-service operations, originations and timers: in every life `l` of the entry of every source `a`, two
+acceptances at most `itsGnDPLLength` acceptances apart carry different sequence numbers.
+Hypotheses: the operations are those of the code as it is now (`allFixed`: location service with the LS-order commit;
+`allLocked`: LocTE updated inside the `loc_t_lock` section that creates it). -/
+theorem dpl_at_most_once (threads : List (List Op)) (hfx : allFixed threads) (hlk : allLocked threads)
+    (sched : List ThreadId) (a : Nat) (l : List Nat) (hl : l ∈ lives (final threads sched) a)
+    (i j : Nat) (hij : i < j) (hj : j < l.length) (hw : j ≤ i + dplLen) : l[i]? ≠ l[j]? := by
+  obtain ⟨hobj, _, _, h3, h4, h5⟩ := dpl_invariant threads hfx hlk sched
+  apply Accepts_window dplLen l _ i j hij hj hw
+  rcases List.mem_cons.mp hl with rfl | hl
+  · cases hla : (final threads sched).loct a
+    · rw [h4 a hla]; exact Accepts_nil _
+    · rw [h3 a hla]; exact (hobj _).2
+  · exact h5 a l hl
+
+/-- … and the ring stored in the table for a source is exactly the window of annex A.2: the last `itsGnDPLLength`
+sequence numbers accepted from that source during the current life of its entry (`lastN` as in C06 `dpl_ring`) -/
+theorem dpl_ring_is_window (threads : List (List Op)) (hfx : allFixed threads) (hlk : allLocked threads)
+    (sched : List ThreadId) (a : Nat) (ha : (final threads sched).loct a = true) :
+    (final threads sched).eDpl ((final threads sched).eid a) = FlexModel.Geo.lastN dplLen ((final threads sched).srcPass a) := by
+  obtain ⟨hobj, _, _, h3, _, _⟩ := dpl_invariant threads hfx hlk sched
+  rw [h3 a ha]; exact (hobj _).1
+
+/-- non-vacuity: two concurrent receptions of the same GBC (source 50, SN 7) by the repaired code, the second thread
+pre-empting the first between its first refresh_table and its `loc_t_lock` section – accepted exactly once -/
+example :
+    allFixed [[.gbcRx 1 50 7 true false []], [.gbcRx 2 50 7 true false []]] ∧
+    allLocked [[.gbcRx 1 50 7 true false []], [.gbcRx 2 50 7 true false []]] ∧
+    (final [[.gbcRx 1 50 7 true false []], [.gbcRx 2 50 7 true false []]]
+      (List.replicate 6 0 ++ List.replicate 25 1 ++ List.replicate 20 0)).srcPass 50 = [7] := by
+  refine ⟨by simp [allFixed, Op.isOld], by simp [allLocked, Op.isUnl], by decide +kernel⟩
+
+/-- the code before the repair (known finding C15-KF2), any threads, any schedule: duplicate detection is still
+correct PER LocTE OBJECT – `check_duplicate_sn` checks and appends under the object's `dpl_lock` – … -/
+theorem dpl_at_most_once_partial (threads : List (List Op)) (sched : List ThreadId) (e : Nat)
+    (i j : Nat) (hij : i < j) (hj : j < ((final threads sched).ePass e).length) (hw : j ≤ i + dplLen) :
+    ((final threads sched).ePass e)[i]? ≠ ((final threads sched).ePass e)[j]? := by
+  have h := router_inv true true true true ObjInv threads (anyPurge threads) (anyOld threads) (anyNew threads) (anyUnl threads)
+    (fun e => ⟨by simp [FlexModel.Geo.lastN], Accepts_nil _⟩) (ObjInv_blk true true true true) sched
+  exact Accepts_window dplLen _ (h e).2 i j hij hj hw
+
+/-- … but a source can have TWO objects: thread 0 creates the entry of source 50 and is pre-empted before the update;
+thread 1's refresh_table drops the entry (no position vector yet), thread 1 creates a second one and accepts SN 7 on
+it; thread 0 then accepts SN 7 on the object it still holds: accepted twice within one life -/
+theorem dpl_at_most_once_witness :
+    (final [[.gbcRx 1 50 7 false false []], [.gbcRx 2 50 7 false false []]]
+      (List.replicate 6 0 ++ List.replicate 25 1 ++ List.replicate 20 0)).srcPass 50 = [7, 7] := by decide +kernel
+
+/-! ## A `with lock:` section is ONE atomic block: reduction at the level of attribute accesses
+
+`FlexModel/Conc/RouterReduction.lean` builds, from `Generated/Locks.lean`, the instruction-level programs in which every
+recorded access to a lock-guarded attribute (sequence counter, CBF buffer, LS dictionaries, `ls_pending`, `loc_t`, DPL)
+is a micro-step of its own, for ANY list of threads calling ANY functions and ANY values computed by the writes.  The
+mechanised reduction theorem (`Props.ConcReduction.block_model_sound`) then says that the model in which each section is
+one block loses nothing: -/
+
+open FlexModel.Conc.Reduction FlexModel.Conc.Router.Red in
+/-- every thread list, every computed value (`sem`), every initial state, every schedule of the ACCESS-level system:
+(1) whatever holds in all states of the block model holds whenever no thread is in the middle of a section,
+(2) every complete access-level run ends in a state that a complete run of the block model produces.
+The only fact about the source is `Red.sections_checked` (`decide` against the regenerated lock map). -/
+theorem sections_atomic (sem : Sem) (threads : List (List Generated.Locks.Fn)) (x : Var → Nat) (sched : List ThreadId) :
+    (∀ P : (Var → Nat) → Prop, (∀ csched, P (run (mkSys x (blockProgs sem threads)) csched).sh) →
+        Quiescent (run (mkSys x (fineProgs sem threads)) sched) → P (run (mkSys x (fineProgs sem threads)) sched).sh) ∧
+    (finished (run (mkSys x (fineProgs sem threads)) sched) = true →
+        ∃ csched, finished (run (mkSys x (blockProgs sem threads)) csched) = true ∧
+          (run (mkSys x (blockProgs sem threads)) csched).sh = (run (mkSys x (fineProgs sem threads)) sched).sh) :=
+  block_model_sound (blockProgs sem threads) (fineProgs sem threads) rfl (access_discipline sem threads) x sched
+
+open FlexModel.Conc.Reduction FlexModel.Conc.Router.Red in
+/-- the commutation discipline behind it, and the fact about the source it rests on -/
+theorem sections_discipline (sem : Sem) (threads : List (List Generated.Locks.Fn)) :
+    Discipline (fineProgs sem threads) ∧
+      Generated.Locks.allFns.all (fun f => (Generated.Locks.blocks f).all secOK) = true :=
+  ⟨access_discipline sem threads, sections_checked⟩
+
+open FlexModel.Conc.Reduction FlexModel.Conc.Router.Red in
+/-- non-vacuity: `get_sequence_number` is a section of TWO micro-steps (read-modify-write of the counter, load of the
+returned value) which fuse into the one block `sect … (pipe …)`; two threads calling it give a fine system with states
+that are not quiescent -/
+example (sem : Sem) :
+    fuse (eraseProg (fnA sem 0 .Router_get_sequence_number)) =
+      sect (lkNum .Router_sequence_number_lock)
+        (pipe [(mbOf sem 0 .Router_get_sequence_number 0 .Router_sequence_number .rmw).f,
+               (mbOf sem 0 .Router_get_sequence_number 1 .Router_sequence_number .read).f]) := rfl
+
+open FlexModel.Conc.Reduction FlexModel.Conc.Router.Red in
+example : quiescentB (run (mkSys (fun _ => 0) (fineProgs (fun _ _ _ => 0)
+    [[.Router_get_sequence_number], [.Router_get_sequence_number]])) [0, 0]) = false := by decide +kernel
+
 /-! ## Deadlock freedom, exceptions -/
 
 /-- the lock-order graph regenerated from the source is acyclic (all edges go up in `lkRank`), only RLocks are
@@ -200,9 +364,21 @@ theorem lock_order_acyclic :
 theorem no_deadlock (threads : List (List Op)) (sched : List ThreadId) : ¬ Deadlock (run (sys threads) sched) :=
   FlexModel.Conc.no_deadlock rank (sys threads) (WF_sys threads) sched
 
-/-- no block raises (`del` only of a present key) -/
+/-- no thread fails: the two statements of the router that can raise on shared state – `del self._cbf_buffer[key]` in
+`_cbf_timeout` and `self._cbf_buffer.pop(key)` in the duplicate branch of `gn_area_cbf_forwarding` (`cbfDel`: KeyError
+when the key is absent) – run in the `_cbf_lock` section that has just seen the key, so the error branch is never taken -/
 theorem no_thread_fails (threads : List (List Op)) (sched : List ThreadId) : (final threads sched).err = 0 :=
-  router_inv true true true ErrInv threads (anyPurge threads) (anyOld threads) (anyNew threads) rfl (ErrInv_blk true true true) sched
+  router_inv true true true true ErrInv threads (anyPurge threads) (anyOld threads) (anyNew threads) (anyUnl threads) rfl (ErrInv_blk true true true true) sched
+
+/-- … and this is what the one-section shape buys (`blocks_cbf_timeout`): with the membership test and the `del` in two
+sections the timer thread fails – a forwarder inserts key 7 (thread 0), the timer thread sees the key (thread 1, first
+section), a duplicate cancels it (thread 2), the timer thread's `del` raises KeyError -/
+theorem no_thread_fails_witness :
+    (run (mkSys ({} : St)
+      [compile (.cbfArrive 1 7),
+       [.acq lkCbf, .blk (cbfCheck 3 7), .rel lkCbf, .acq lkCbf, .blk (whenReg 3 2 1 (cbfDelCommit 7)), .rel lkCbf],
+       compile (.cbfArrive 2 7)])
+      (List.replicate 8 0 ++ List.replicate 3 1 ++ List.replicate 8 2 ++ List.replicate 3 1)).sh.err = 1 := by decide +kernel
 
 /-! ## Tie to the source (re-exported obligations; see `RouterConc` for the individual block lists) -/
 
@@ -223,5 +399,15 @@ theorem source_blocks :
     Generated.Locks.shape .Router_refresh_ego_position_vector =
       [([.Router_ego_position_vector_lock], [.Router_ego_position_vector])] :=
   ⟨blocks_get_sequence_number, blocks_cbf_timeout, blocks_refresh_ego⟩
+
+/-- the LocTE life cycle: refresh_table / get_neighbours / get_entry / ensure_entry are single `loc_t_lock` sections and
+the seven `new_*_packet` functions have the section shape `rxProg` assumes (see `RouterConc.blocks_new_packet`) -/
+theorem source_locte_blocks :
+    Generated.Locks.shape .LocationTable_refresh_table = [([.LocationTable_loc_t_lock], [.LocationTable_loc_t])] ∧
+    Generated.Locks.shape .LocationTable_get_neighbours = [([.LocationTable_loc_t_lock], [.LocationTable_loc_t])] ∧
+    Generated.Locks.shape .LocationTable_get_entry = [([.LocationTable_loc_t_lock], [.LocationTable_loc_t])] ∧
+    Generated.Locks.shape .LocationTable_ensure_entry = [([.LocationTable_loc_t_lock], [.LocationTable_loc_t])] ∧
+    ((rxFns.all rxLocked && updatersUnderLocT) || (Generated.OpenFindings.C15_KF2 && rxFns.all rxUnlocked)) = true :=
+  ⟨blocks_refresh_table, blocks_get_neighbours, blocks_get_entry, blocks_ensure_entry, blocks_new_packet⟩
 
 end Props.C15
